@@ -87,6 +87,34 @@ class PickleReader:
         return C4.make_dataset(pset, layout)
 
 
+class PatientPoll:
+    """Schedule owned by the harness: every `is_alive()` poll of the parent
+    first gives the worker up to `wait` seconds to finish.  This is a legal
+    timing (the worker happens to finish - and to put its last results -
+    exactly between two steps of the parent's loop) that the OS scheduler
+    produces only rarely."""
+
+    def __init__(self, wait):
+        self.wait = wait
+
+    def __enter__(self):
+        import multiprocessing
+        import typhon.collocations.collocator as cc
+        self.cc, self.saved = cc, cc.Process
+        wait = self.wait
+
+        class PatientProcess(multiprocessing.Process):
+            def is_alive(self):
+                self.join(wait)
+                return super().is_alive()
+        cc.Process = PatientProcess
+        return self
+
+    def __exit__(self, *exc):
+        self.cc.Process = self.saved
+        return False
+
+
 class LogCapture:
     """collects the error messages typhon's collocator logs in the parent
     process (the runner disables logging globally)"""
@@ -293,7 +321,11 @@ def check_filesets(case, ctx):
             crashed = 0
             capture = LogCapture()
             try:
-                with P.PinnedShuffle(case["shuffle"]), capture, \
+                schedule = contextlib.nullcontext()
+                if cfg.get("schedule") == "patient-poll":
+                    schedule = PatientPoll(0.4)
+                    ctx.label("schedule-worker-finishes-before-poll")
+                with P.PinnedShuffle(case["shuffle"]), capture, schedule, \
                         contextlib.redirect_stdout(io.StringIO()), \
                         contextlib.redirect_stderr(io.StringIO()):
                     if cfg["output"] == "memory":
@@ -443,9 +475,11 @@ def fileset_cases(draw):
     configs = []
     for _ in range(draw(st.integers(3, 5))):
         broken = None
-        if draw(st.integers(0, 4)) == 0:
-            broken = [draw(st.integers(0, 1)), draw(st.integers(0, 7))]
+        if draw(st.integers(0, 2)) == 0:
+            broken = [draw(st.sampled_from([0, 0, 1])),
+                      draw(st.integers(0, 7))]
         configs.append({
+            "schedule": draw(st.sampled_from(["os", "os", "patient-poll"])),
             "processes": draw(st.sampled_from([1, 1, 2, 3, 4])),
             "bundle": draw(st.sampled_from([None, "primary", "daily"])),
             "output": draw(st.sampled_from(["memory", "memory", "disk"])),
@@ -458,4 +492,4 @@ def fileset_cases(draw):
 
 def suites(tier):
     return [Suite("filesets", check_filesets, strategy=fileset_cases(),
-                  examples={"quick": 12, "thorough": 100})]
+                  examples={"quick": 22, "thorough": 150})]
